@@ -33,6 +33,8 @@ RULE = (
     'equal times; exitq: tie and a removal). Distinct '
     'by sha1 of the canonical case JSON.'
     " nrt_reset stage: C05 programs with tempo changes preceded by abandoned statements and main.reset(). exitq runs the library's own shutdown over a queue filled by the case, with actions registering/removing actions while it runs.")
+RULE += ' ' + (
+    'History tasks are strings, four Function wrappers of one plain function (what clock.sched(delta, f) queues) or routines, chosen by a hash of the history.')
 ASSUMPTIONS = [
     'TaskQueue is documented as not thread safe; histories are sequential.',
     'Ppar tie order is exercised in C14, score order additionally in C07.',
